@@ -11,8 +11,8 @@ What is PROVED here (DESIGN §5 C18):
      adding an assignment of an unlisted function breaks a theorem below;
  (b) the reference ledger of the attribute core (`Model/RefLedger`): a
      rejected assignment is neutral, a successful one moves exactly the
-     references of the slot written, and - with the one hypothesis that is
-     really needed - the code changes no reference count that is not a slot.
+     references of the slot written, and no operation, however it ends, changes
+     a reference count that is not a slot.
 
 What is NOT provable in a model and is searched for at run time instead
 (harness/props/c18.py, sanitizer tier): out-of-bounds accesses, use after
@@ -375,39 +375,36 @@ theorem C18_untouched {E : Env} {c : TraitCfg} {s s' : St} {name : String} {key 
   have e3 : b2n (lookup s.dict name = none ∧ key = id) = 0 := by simp [b2n, h2]
   omega
 
-/-- Full-strength clause: whatever an operation does and however it ends, every
-reference-count change it makes is a slot of the resulting state. -/
-def C18_ledger_exact : Prop :=
-  ∀ (E : Env) (c : TraitCfg) (s : St) (op : Model.RefLedger.Op), (step E c s op).2.stray = s.stray
-
-/-- Proved when the attribute name can always be hashed (every `str`, and every
-`str` subclass whose `__hash__` does not raise). -/
-theorem C18_ledger_exact_partial (E : Env) (hh : ∀ n, E.hashOk n = true) (c : TraitCfg) (s : St)
-    (op : Model.RefLedger.Op) : (step E c s op).2.stray = s.stray := by
+/-- **Ledger exact.**  Whatever an operation does and however it ends - the
+validator, the default factory, `post_setattr`, a notifier or the `__hash__` of
+the attribute name raising at any point - every reference-count change it makes
+is a slot of the resulting state: no stray reference.  (Before f934ab1 this
+needed the hypothesis that the name can always be hashed: the
+`PyDict_SetItem` failure path of `setattr_trait` released the borrowed `name`,
+finding F74.) -/
+theorem C18_ledger_exact (E : Env) (c : TraitCfg) (s : St) (op : Model.RefLedger.Op) :
+    (step E c s op).2.stray = s.stray := by
   cases op with
-  | set name key v => exact setattrTrait_stray hh ..
+  | set name key v => exact setattrTrait_stray ..
   | del name key => exact delattrTrait_stray ..
   | get name key => exact getattr_stray ..
 
-/-- Refuted in general: when `PyDict_SetItem` fails in `setattr_trait`
-(ctraits.c:2510-2519) the error path does `Py_DECREF(name)` on a borrowed
-reference.  Witness: `setattr(obj, n, 5)` where `n` is a `str` subclass whose
-`__hash__` raises on the call made by that `PyDict_SetItem`; afterwards the
-name object has one reference too few (the oracle replays it:
-`refcount:setattr-setitem-failure:name`). -/
-theorem C18_ledger_exact_fails_at : ¬ C18_ledger_exact := by
-  intro h
-  let E : Env := { validate := fun _ x => .ok x, dflt := fun _ _ => .ok 9, post := fun _ _ => .ok (),
-                   notify := fun _ _ => .ok (), hashOk := fun _ => false }
-  have := h E {} {} (.set "x" 7 5)
-  revert this
-  decide
+/-- An assignment whose `PyDict_SetItem` cannot hash the name, on a trait
+without `post_setattr` and without notifiers (no default is materialised
+first), is neutral as well: nothing changes. -/
+theorem C18_fail_neutral_setitem (E : Env) (c : TraitCfg) (s : St) (name : String) (key v value : Id)
+    (hp : c.hasPost = false) (hn : s.hasNotifiers = false)
+    (hv : (if c.hasValidate then E.validate 0 v else .ok v) = .ok value) (hh : E.hashOk 0 = false) :
+    step E c s (.set name key v) = (some hashExc, s) := by
+  simp [step, setattrTrait, hv, hp, hn, setFinish, hh]
 
-/-- The same witness in numbers: the name object `7` ends at −1. -/
-theorem C18_stray_decref_witness :
+/-- Regression example, the input of finding F74: `setattr(obj, n, 5)` with the
+`__hash__` of `n` raising inside `PyDict_SetItem`.  The operation raises and the
+name object `7` keeps its count (it read −1 before f934ab1). -/
+example :
     let E : Env := { validate := fun _ x => .ok x, dflt := fun _ _ => .ok 9, post := fun _ _ => .ok (),
                      notify := fun _ _ => .ok (), hashOk := fun _ => false }
-    (step E {} {} (.set "x" 7 5)).1 = some hashExc ∧ refs (step E {} {} (.set "x" 7 5)).2 7 = -1 := by
+    (step E {} {} (.set "x" 7 5)).1 = some hashExc ∧ refs (step E {} {} (.set "x" 7 5)).2 7 = 0 := by
   decide
 
 /-! Non-vacuity of the ledger theorems: a trait with `post_setattr` and a
